@@ -5,7 +5,9 @@ package main
 import (
 	"bytes"
 	"context"
+	"encoding/hex"
 	"fmt"
+	"regexp"
 	"os"
 	"os/exec"
 	"path/filepath"
@@ -270,14 +272,84 @@ func smtInt(n int64) string {
 	return fmt.Sprintf("%d", n)
 }
 
-// smtStrLit builds the canonical Str term for a Go string literal.
+// smtStrLit names the Str constant for a Go string literal: lit_<hex of the bytes>.
+// Its definition is emitted per encoding by litDefs.
 func smtStrLit(s string) string {
-	arr := "((as const (Array Int Int)) 0)"
-	for i := 0; i < len(s); i++ {
-		arr = fmt.Sprintf("(store %s %d %d)", arr, i, s[i])
+	if s == "" {
+		return "emptystr"
 	}
-	return fmt.Sprintf("(mkstr %s %d)", arr, len(s))
+	return "lit_" + hex.EncodeToString([]byte(s))
 }
+
+var litSymRe = regexp.MustCompile(`\blit_([0-9a-f]+)\b`)
+
+func litBytes(sym string) []byte {
+	b, _ := hex.DecodeString(strings.TrimPrefix(sym, "lit_"))
+	return b
+}
+
+// litDefs: definitions of the literal constants occurring in text.
+func litDefs(text string, seq bool) string {
+	seen := map[string]bool{}
+	var b strings.Builder
+	for _, m := range litSymRe.FindAllString(text, -1) {
+		if seen[m] {
+			continue
+		}
+		seen[m] = true
+		bs := litBytes(m)
+		if seq {
+			var sb strings.Builder
+			for _, c := range bs {
+				sb.WriteString(fmt.Sprintf("\\u{%x}", c))
+			}
+			fmt.Fprintf(&b, "(define-fun %s () Str \"%s\")\n", m, sb.String())
+		} else {
+			arr := "((as const (Array Int Int)) 0)"
+			for i, c := range bs {
+				arr = fmt.Sprintf("(store %s %d %d)", arr, i, c)
+			}
+			fmt.Fprintf(&b, "(define-fun %s () Str (mkstr %s %d))\n", m, arr, len(bs))
+		}
+	}
+	return b.String()
+}
+
+// Preamble of the "seq" encoding (DESIGN 2.4): Str is the SMT-LIB String sort; the
+// same function names as in the array encoding are defined over it, so the generator
+// emits one term language. Used for loop-free string algebra only.
+const preambleSeq = `(set-option :produce-models true)
+(set-logic ALL)
+(define-sort Str () String)
+(declare-datatypes ((SL 0)) (((mksl (items (Array Int String)) (sllen Int)))))
+(declare-datatypes ((IL 0)) (((mkil (ints (Array Int Int)) (illen Int)))))
+(define-fun emptystr () Str "")
+(define-fun slen ((s Str)) Int (str.len s))
+(define-fun at ((s Str) (i Int)) Int (str.to_code (str.at s i)))
+(define-fun wfstr ((s Str)) Bool (str.in_re s (re.* (re.range "\u{0}" "\u{ff}"))))
+(define-fun sat_ ((l SL) (i Int)) Str (select (items l) i))
+(define-fun wfsl ((l SL)) Bool (>= (sllen l) 0))
+(define-fun wfil ((l IL)) Bool (>= (illen l) 0))
+(define-fun scat ((a Str) (b Str)) Str (str.++ a b))
+(define-fun ssub ((s Str) (lo Int) (hi Int)) Str (str.substr s lo (- hi lo)))
+(define-fun appendbyte ((s Str) (b Int)) Str (str.++ s (str.from_code b)))
+(define-fun appendstr ((l SL) (s Str)) SL (mksl (store (items l) (sllen l) s) (+ (sllen l) 1)))
+(define-fun emptysl () SL (mksl ((as const (Array Int String)) "") 0))
+(define-fun emptyil () IL (mkil ((as const (Array Int Int)) 0) 0))
+(declare-fun slsub (SL Int Int) SL)
+(assert (forall ((s SL) (lo Int) (hi Int)) (! (and (= (sllen (slsub s lo hi)) (- hi lo))
+  (forall ((i Int)) (! (=> (and (<= 0 i) (< i (- hi lo))) (= (select (items (slsub s lo hi)) i) (select (items s) (+ lo i)))) :pattern ((select (items (slsub s lo hi)) i)))))
+  :pattern ((slsub s lo hi)))))
+(declare-fun slcat (SL SL) SL)
+(assert (forall ((a SL) (b SL)) (! (and (= (sllen (slcat a b)) (+ (sllen a) (sllen b)))
+  (forall ((i Int)) (! (and (=> (and (<= 0 i) (< i (sllen a))) (= (select (items (slcat a b)) i) (select (items a) i)))
+                            (=> (and (<= (sllen a) i) (< i (+ (sllen a) (sllen b)))) (= (select (items (slcat a b)) i) (select (items b) (- i (sllen a))))))
+     :pattern ((select (items (slcat a b)) i)))))
+  :pattern ((slcat a b)))))
+(define-fun gomod ((a Int) (b Int)) Int (ite (>= a 0) (mod a (ite (>= b 0) b (- b))) (- (mod (- a) (ite (>= b 0) b (- b))))))
+(define-fun godiv ((a Int) (b Int)) Int (ite (>= a 0) (ite (> b 0) (div a b) (- (div a (- b)))) (ite (> b 0) (- (div (- a) b)) (div (- a) (- b)))))
+(define-fun itoa ((n Int)) Str (ite (>= n 0) (str.from_int n) (str.++ "-" (str.from_int (- n)))))
+`
 
 func and(ts ...string) string {
 	var xs []string
